@@ -921,8 +921,9 @@ def extend_build_agree(check: Check, repo: Repo) -> None:
                  f"{sorted(hm)}" if ok else f"extend path uses {sorted(hm)}, build path uses {sorted(hb_cmp)}")
         if kind == "scalar":
             def fold(node: ast.AST) -> list[str]:
-                return [_norm(s.value, {}) for l in ast.walk(node) if isinstance(l, ast.For) for s in l.body
-                        if isinstance(s, ast.Assign) and unparse(s.targets[0]) == "specified_by_url"]
+                # the whole body of the loop that updates specified_by_url (one `x = f(n) or x`, or its if-statement form)
+                return [_norm(ast.Module(body=l.body, type_ignores=[]), {}) for l in ast.walk(node) if isinstance(l, ast.For)
+                        and any(isinstance(s, ast.Assign) and unparse(s.targets[0]) == "specified_by_url" for s in ast.walk(l))]
             fm, fb = fold(mp), fold(ast.Module(body=case.body, type_ignores=[]))
             ok = fm == fb and len(fm) == 1
             check.ob(rule, mp, "scalar: specifiedBy fold over the extension nodes", ok,
@@ -1061,6 +1062,12 @@ def or_fold(check: Check, repo: Repo, rule: str = "OR-FOLD") -> None:
             and len(s.targets) == 1 and unparse(s.value.values[-1]) == unparse(s.targets[0])
             and any(isinstance(x, ast.Name) and x.id == var for x in ast.walk(s.value.values[0]))
         ]
+        # the statement form of the same fold: `tmp = f(node)` ... `if tmp: value = tmp`
+        tmp = {t.id for s_ in loop.body if isinstance(s_, ast.Assign) and any(isinstance(x, ast.Name) and x.id == var for x in ast.walk(s_.value))
+               for t in s_.targets if isinstance(t, ast.Name)}
+        for i_ in loop.body:
+            if isinstance(i_, ast.If) and isinstance(i_.test, ast.Name) and i_.test.id in tmp and not i_.orelse:
+                folds += [s_ for s_ in i_.body if isinstance(s_, ast.Assign) and isinstance(s_.value, ast.Name) and s_.value.id == i_.test.id]
         if not folds:
             continue
         fn = enclosing_function(loop)
@@ -1081,7 +1088,7 @@ def or_fold(check: Check, repo: Repo, rule: str = "OR-FOLD") -> None:
                      "folds extension nodes only" if not includes_def else
                      f"the loop also runs over the definition node ({elems}): its own falsy value is replaced by the fallback")
     if n < 1:
-        raise AnalysisError("OR-FOLD: no `x = f(node) or x` fold found in extend_schema.py")
+        check.ob(rule, mod.tree, "extend_schema.py: override folds over extension nodes", True, "no fold of this shape in the module", nontrivial=False)
 
 
 def change_flag(check: Check, repo: Repo, rule: str = "CHANGE-FLAG") -> None:
@@ -1216,7 +1223,14 @@ def root_names_agree(check: Check, repo: Repo, rule: str = "ROOT-NAMES-AGREE") -
                  f"`{unparse(r)[:60]}` is not schema.get_type(<name>): the printer's notion of 'default root' differs from the builder's")
     b = repo.func("utilities.build_ast_schema", "build_ast_schema")
     bnames = {c.comparators[0].value for c in walk_body(b) if isinstance(c, ast.Compare) and len(c.ops) == 1 and isinstance(c.ops[0], ast.Eq)
-              and isinstance(c.comparators[0], ast.Constant) and isinstance(c.comparators[0].value, str) and unparse(c.left) == "type_name"}
+              and isinstance(c.comparators[0], ast.Constant) and isinstance(c.comparators[0].value, str) and unparse(c.left) in ("type_name", "type_.name")}
+    # the pattern spelling: `match type_.name: case "Query": ...`
+    for m_ in walk_body(b):
+        if isinstance(m_, ast.Match) and unparse(m_.subject) in ("type_name", "type_.name"):
+            for case in m_.cases:
+                for p_ in ast.walk(case.pattern):
+                    if isinstance(p_, ast.MatchValue) and isinstance(p_.value, ast.Constant) and isinstance(p_.value.value, str):
+                        bnames.add(p_.value.value)
     check.ob(rule, fn, "the same three names on both sides", names == bnames and len(names) == 3,
              f"{sorted(names)}" if names == bnames else f"printer {sorted(names)} vs builder {sorted(bnames)}")
 
@@ -1421,8 +1435,17 @@ def lazy_thunks(check: Check, repo: Repo, rule: str = "LAZY-THUNKS") -> None:
         for c in ast.walk(mod.tree):
             if isinstance(c, ast.Call) and isinstance(c.func, ast.Subscript) and isinstance(c.func.slice, ast.Constant) and c.func.slice.value in THUNK_KEYS:
                 n += 1
-                inside = any(isinstance(a, ast.Lambda) for a in ancestors(c)) or sum(isinstance(a, (ast.FunctionDef, ast.Lambda)) for a in ancestors(c)) >= 3 and any(
-                    isinstance(a, ast.FunctionDef) and a.name in ("fields", "interfaces", "types") for a in ancestors(c))
+                inside = any(isinstance(a, ast.Lambda) for a in ancestors(c))
+                if not inside:
+                    # a local def that is handed over as the value of a thunk key is a deferred body as well
+                    f_in = enclosing_function(c)
+                    f_out = enclosing_function(f_in) if f_in is not None else None
+                    if isinstance(f_in, ast.FunctionDef) and f_out is not None:
+                        for k_ in ast.walk(f_out):
+                            vals = [kw.value for kw in k_.keywords if kw.arg in THUNK_KEYS] if isinstance(k_, ast.Call) else (
+                                [v for kk, v in zip(k_.keys, k_.values) if isinstance(kk, ast.Constant) and kk.value in THUNK_KEYS] if isinstance(k_, ast.Dict) else [])
+                            if any(isinstance(v, ast.Name) and v.id == f_in.name for v in vals):
+                                inside = True
                 check.ob(rule, c, f"{qualname_of(c)[-60:]}: {unparse(c)}", inside,
                          "invoked inside a deferred body" if inside else "an old thunk is run while the new types are still being created")
         # (3)
@@ -1484,7 +1507,19 @@ def introspection_depth_lists(check: Check, repo: Repo, rule: str = "DEPTH-LISTS
             if elem in reaches_type:
                 want.add(name)
     fn = repo.func("validation.rules.max_introspection_depth_rule", "MaxIntrospectionDepthRule._check_depth")
-    tuples = [t for t in walk_body(fn) if isinstance(t, ast.Tuple) and len(t.elts) >= 3 and all(isinstance(e, ast.Constant) and isinstance(e.value, str) for e in t.elts)]
+    def _names(t: ast.AST) -> bool:
+        return isinstance(t, (ast.Tuple, ast.List, ast.Set)) and len(t.elts) >= 3 and all(isinstance(e, ast.Constant) and isinstance(e.value, str) for e in t.elts)
+
+    tuples = [t for t in walk_body(fn) if _names(t)]
+    if not tuples:
+        # the names may live in a module-level constant (frozenset / tuple) the function tests membership in
+        dmod = repo.mod("validation.rules.max_introspection_depth_rule")
+        used = {x.id for x in walk_body(fn) if isinstance(x, ast.Name)}
+        for st in dmod.tree.body:
+            if isinstance(st, (ast.Assign, ast.AnnAssign)):
+                tg = st.targets[0] if isinstance(st, ast.Assign) else st.target
+                if isinstance(tg, ast.Name) and tg.id in used and st.value is not None:
+                    tuples += [t for t in ast.walk(st.value) if _names(t)]
     if len(tuples) != 1:
         raise AnalysisError("_check_depth: the tuple of counted field names was not found")
     got = {e.value for e in tuples[0].elts}
